@@ -128,8 +128,11 @@ func checkScanFilter(w *World, r *Report, tm *Terms, rule string) {
 		}
 		return append(fs, w.beginBlockFn())
 	}()...)
-	// functions that walk the whole Bid collection (nil ranger)
+	// functions that walk the whole Bid collection (nil ranger): wrappers hand every element to a callback parameter,
+	// walkers hand it to a closure of their own (directly or through a wrapper)
+	wrapper := map[*ssa.Function]bool{}
 	global := map[*ssa.Function]bool{}
+	callback := map[*ssa.Function]*ssa.MakeClosure{}
 	for _, fn := range w.Funcs {
 		for _, b := range fn.Blocks {
 			for _, in := range b.Instrs {
@@ -138,10 +141,109 @@ func checkScanFilter(w *World, r *Report, tm *Terms, rule string) {
 					continue
 				}
 				args := in.(ssa.CallInstruction).Common().Args
-				if c, ok := args[2].(*ssa.Const); ok && c.Value == nil {
+				if c, ok := args[2].(*ssa.Const); !ok || c.Value != nil || len(args) < 4 {
+					continue
+				}
+				switch cb := args[3].(type) {
+				case *ssa.Parameter:
+					wrapper[fn] = true
+				case *ssa.MakeClosure:
+					global[fn] = true
+					callback[fn] = cb
+				default:
 					global[fn] = true
 				}
 			}
+		}
+	}
+	for _, fn := range w.Funcs {
+		for _, b := range fn.Blocks {
+			for _, in := range b.Instrs {
+				c, ok := in.(ssa.CallInstruction)
+				if !ok {
+					continue
+				}
+				if callee := w.calleeBody(c.Common()); callee != nil && wrapper[callee] {
+					global[fn] = true
+					for _, a := range c.Common().Args {
+						if mc, ok := a.(*ssa.MakeClosure); ok {
+							callback[fn] = mc
+						}
+					}
+				}
+			}
+		}
+	}
+	// a walker whose callback only keeps elements of the auction whose id is one of the walker's parameters
+	filteredBy := map[*ssa.Function]int{}
+	for fn, mc := range callback {
+		cb, _ := mc.Fn.(*ssa.Function)
+		if cb == nil || len(cb.Params) == 0 {
+			continue
+		}
+		cfr := tm.PlainRoot(cb) // the walker's own parameters must stay symbolic here
+		val := cb.Params[len(cb.Params)-1]
+		isVal := func(t *Term) bool {
+			return t.Any(func(x *Term) bool { return x.Op == "param" && x.V == ssa.Value(val) })
+		}
+		idx, eqBlock := -1, (*ssa.BasicBlock)(nil)
+		for _, bb := range cb.Blocks {
+			iff, ok := bb.Instrs[len(bb.Instrs)-1].(*ssa.If)
+			if !ok {
+				continue
+			}
+			bo, ok := iff.Cond.(*ssa.BinOp)
+			if !ok || (bo.Op != token.EQL && bo.Op != token.NEQ) {
+				continue
+			}
+			l, rt := tm.Of(cfr, bo.X), tm.Of(cfr, bo.Y)
+			if !(isField(l, "AuctionId") && isVal(l)) {
+				l, rt = rt, l
+			}
+			if !(isField(l, "AuctionId") && isVal(l)) || isVal(rt) {
+				continue
+			}
+			// the other side: a parameter of the walker (captured by the closure)
+			other := uncell(rt)
+			if par, ok := other.V.(*ssa.Parameter); ok && other.Op == "param" && par.Parent() == fn {
+				for i, p := range fn.Params {
+					if p == par {
+						idx = i
+					}
+				}
+				if bo.Op == token.EQL {
+					eqBlock = bb.Succs[0]
+				} else {
+					eqBlock = bb.Succs[1]
+				}
+			}
+		}
+		if idx < 0 {
+			continue
+		}
+		// every use of the element other than in comparisons happens under the equal branch
+		ok := true
+		for _, bb := range cb.Blocks {
+			for _, in := range bb.Instrs {
+				cl, isCall := in.(*ssa.Call)
+				if !isCall {
+					continue
+				}
+				uses := false
+				for _, a := range cl.Call.Args {
+					if isVal(tm.OperandAt(cfr, in, a)) {
+						uses = true
+					}
+				}
+				if uses && !(eqBlock == bb || eqBlock.Dominates(bb)) {
+					if _, cmp := intCmp[callKey(&cl.Call)]; !cmp && !strings.HasSuffix(callKey(&cl.Call), ".String") {
+						ok = false
+					}
+				}
+			}
+		}
+		if ok {
+			filteredBy[fn] = idx
 		}
 	}
 	n := 0
@@ -159,6 +261,25 @@ func checkScanFilter(w *World, r *Report, tm *Terms, rule string) {
 				}
 				n++
 				construct := fmt.Sprintf("%s:scan#%d", fnName(fn), n)
+				if idx, filtered := filteredBy[callee]; filtered {
+					// the walker itself keeps only the elements of the auction whose id it is given: that id must be the
+					// operated auction's
+					var args []ssa.Value
+					if c.Call.IsInvoke() {
+						args = append(args, c.Call.Value)
+					}
+					args = append(args, c.Call.Args...)
+					okID := false
+					why := "the walker is not given an auction id"
+					if idx < len(args) {
+						at := tm.OperandAt(fr, in, args[idx])
+						okID = (isField(at, "Id") || isField(at, "AuctionId")) && !at.Any(func(x *Term) bool { return x.V == ssa.Value(c) })
+						why = "the scan is filtered by " + at.String() + ", not by the operated auction's id"
+					}
+					r.Check(okID, rule, construct, w.instrPos(in),
+						"the unprefixed Bid scan ("+fnName(callee)+") keeps only the elements whose AuctionId equals the operated auction's id", why+": a bidder's bids in one auction count against (or for) another auction")
+					continue
+				}
 				// elements of the result list
 				var bad, skipEnds []string
 				guard := (*ssa.BasicBlock)(nil)
@@ -254,4 +375,17 @@ func checkC05(w *World, r *Report) {
 	checkSupplyGuard(w, r, tm, tree)
 	fixedPriceGuards(w, r, tm)
 	checkAddrCanon(w, r, tm)
+	// CAP-COVER: the caps above are stated per bid type; every bid type the message validation admits must be one of them,
+	// otherwise a bid of the uncovered type is recorded (and paid out at settlement) without any allowance check
+	r.Rule("CAP-COVER", "every admitted bid type is subject to an allowance cap", 3)
+	admitted, names := admittedEnum(w, tm, "MsgPlaceBid", "BidType", "BidType")
+	capped := map[int64]bool{1: true, 2: true, 3: true}
+	place := w.msgServerMethods()["PlaceBid"]
+	for _, bt := range admitted {
+		r.Check(capped[bt], "CAP-COVER", "bid-type:"+names[bt], w.pos(place.Pos()),
+			"bid type "+names[bt]+" admitted by MsgPlaceBid.ValidateBasic is checked against the bidder's allowance (FP-CAP / BATCH-CAP)",
+			"MsgPlaceBid.ValidateBasic admits bid type "+names[bt]+" for which the placing operation has no allowance check: such a bid is recorded without a cap and is allocated at settlement")
+	}
+	// a fixed price bid's cap is enforced once, at acceptance: it stays valid only if the bid is never changed afterwards
+	r.Sub(checkC06, "FP-NO-REWRITE")
 }
